@@ -161,6 +161,13 @@ def job_variant(item):
     S.absorb_engine(eng)
     return S
 
+def hidden_state(ex):
+    """printable snapshot of everything that outlives a call on this path: statics and thread-locals"""
+    out = {}
+    for k, c in getattr(ex, 'statics', {}).items(): out['static ' + k] = repr(c.v)[:4000]
+    for k, c in getattr(ex, 'tls', {}).items(): out['thread_local ' + k] = repr(c.v)[:4000]
+    return out
+
 def job_reuse(item):
     """one compiled expression (and a clone taken after its first use) searched on document A and then on an INDEPENDENT document B behaves on B like a freshly
     compiled expression -- whatever A was (null and falsy roots included)"""
@@ -183,6 +190,14 @@ def job_reuse(item):
             if u.variant == 'Ok':
                 d = ER.same(ex, u.fields[0].v, fresh.fields[0].v)
                 if d: return f'{nm}: {d}'
+        # state that outlives a call (statics, thread-locals) may be initialised by a first use, but identical searches must leave it alone afterwards:
+        # a value that keeps moving (a counter that is not restored on an error path, a pool that is not cleared) eventually changes a later call
+        s1 = hidden_state(ex); ex.call('Expression::search', [Ptr(Cell(x1)), SY.rc(dB)]); s2 = hidden_state(ex)
+        ex.call('Expression::search', [Ptr(Cell(x1)), SY.rc(dB)]); s3 = hidden_state(ex)
+        if s2 != s3 or s1 != s2:
+            diff = [k for k in s3 if s2.get(k) != s3.get(k) or s1.get(k) != s2.get(k)]
+            ex.u_state = True
+            return f'state that outlives the call keeps changing under identical searches: {diff[:3]} ({str(s2.get(diff[0]))[:60]} -> {str(s3.get(diff[0]))[:60]})'
         return None
     def on_path(ex, r):
         S['paths'] += 1; S['outcomes'][r[0]] += 1
@@ -194,6 +209,8 @@ def job_reuse(item):
         sat, m = SY.check_pinned(eng, ex.pc, acc)
         if not sat: return
         dA = SY.tagged(ex, ex.doc, m); dB = SY.tagged(ex, ex.doc2, m)
+        if getattr(ex, 'u_state', False):
+            S.cand('c13:hidden-state-drifts', f'{e1}: {r[1]}', {'e1': e1, 'doc': dB}, {'op': 'repeat', 'expr': e1, 'doc': dB, 'n': 3000}, expected='the 3000th identical search behaves like the first'); return
         S.cand('c13:reuse-differs', f'{e1}: searched on one document and then on another: {r[1]}', {'e1': e1, 'd1': dA, 'dv': dB},
                {'op': 'reuse', 'expr': e1, 'docs': [dA, dB]}, expected='same as a fresh expression')
     n, rest = eng.explore(body, on_path, max_paths=3000)
@@ -201,12 +218,15 @@ def job_reuse(item):
     S.absorb_engine(eng)
     return S
 
-REUSE = ['[`1`, `2`]', '{a: `1`}', '`1`', "'x'", 'a', '[a, b]', '@', 'length(@)', 'a || `1`', '[?a]', '*', 'a == b', '!@', 'type(@)', '[0]', '[::-1]', 'not_null(a, b)', '{x: a, y: @}']
+REUSE = ['[`1`, `2`]', '{a: `1`}', '`1`', "'x'", 'a', '[a, b]', '@', 'length(@)', 'a || `1`', '[?a]', '*', 'a == b', '!@', 'type(@)', '[0]', '[::-1]', 'not_null(a, b)', '{x: a, y: @}', '[abs(a), a]', 'a[*].abs(@)', 'abs(a) == b']
 
 def task(item):
     return {'variant': job_variant, 'reuse': job_reuse}.get(item[0], job_seq)(item[1:])
 
 def confirm(c, nd, nr):
+    if c['key'] == 'c13:hidden-state-drifts':
+        obs = {'dev': nd.request(c['request']), 'release': nr.request(c['request'])}
+        return any(o.get('kind') != 'ok' or not o.get('stable') for o in obs.values()), obs
     if c['key'] == 'c13:reuse-differs':
         obs = {'dev': nd.request(c['request']), 'release': nr.request(c['request'])}
         return any(o.get('kind') != 'ok' or not o.get('equal') for o in obs.values()), obs
@@ -242,7 +262,9 @@ def run(run):
     # the same text with different surrounding whitespace / a no-break space (not JMESPath whitespace): compile() must still be the parse of ITS argument
     ws = [e1s[i % len(e1s)] for i in range(run.seed, run.seed + (3 if quick else len(e1s)))] + ['a.b']
     jobs += [('seq', e1, v, 1, dl) for e1 in dict.fromkeys(ws) for v in (' ' + e1, e1 + ' ', '\u00a0' + e1, '\n  ' + e1 + '\n')]
-    jobs += [('reuse', e, dl) for e in (REUSE[:10] if quick else REUSE)]
+    # the same body under different delimiters in two compilations: a text-keyed cache below the parser (lexer level) must not confuse them
+    jobs += [('seq', e1, e2, 1, dl) for e1, e2 in (('"1"', '`1`'), ('`1`', '"1"'), ('`true`', '"true"'), ('"null"', '`null`'), ("'1'", '`1`'), ('`"a"`', '"a"'), ("a == '1'", 'a == `1`'))]
+    jobs += [('reuse', e, dl) for e in (REUSE[:10] + REUSE[-3:] if quick else REUSE)]
     jobs += [('variant', e, 1 if '==' in e else 2, dl) for e in (['a', 'a[0]', 'to_string(a)', 'a[*].b', '@', 'type(a)', '[a, b]', 'a || b'] if quick else EXPRS)]
     run.bounds = {'call sequences': f'compile(e1); search(d1); compile(e2); search(d2) [may fail midway]; compile(e1) again; clone; search(d1) twice -- for {len(e1s)} x {len(e2s)} expression pairs (core forms and built-ins), '
                                     'documents d1 depth 2 / d2 depth 1 lazily symbolic; through the crate-level compile() (DEFAULT_RUNTIME lazy static, initialised on the path) and Expression::search',
